@@ -521,9 +521,32 @@ def Tok.strs : Tok → List Char
   | .s v => v
   | .n v => (toString v).toList
   | .g xs => strsL xs
+  | .nm _ _ _ xs => strsL xs
 def strsL : List Tok → List Char
   | [] => []
   | t :: ts => t.strs ++ strsL ts
+end
+
+/-! the list view (`as_list()`): results-name annotations are transparent -/
+mutual
+def Tok.flat : Tok → List Tok
+  | .s v => [.s v]
+  | .n v => [.n v]
+  | .g xs => [.g (flatL xs)]
+  | .nm _ _ _ xs => flatL xs
+def flatL : List Tok → List Tok
+  | [] => []
+  | t :: ts => t.flat ++ flatL ts
+end
+
+/-! the items of a result handed to an action (`list(t)`): top-level names are gone, nested groups keep theirs -/
+mutual
+def Tok.stripTop : Tok → List Tok
+  | .nm _ _ _ xs => stripTopL xs
+  | t => [t]
+def stripTopL : List Tok → List Tok
+  | [] => []
+  | t :: ts => t.stripTop ++ stripTopL ts
 end
 
 /-- `"".join(tokenlist._asStringList(joinString))` (Combine.postParse 5872-5877) -/
@@ -543,8 +566,9 @@ def runActs : List Act → Nat → Nat → List Tok → Out
     | .condTrue => runActs as start e ts
     | .const v => runActs as start e [.s v]
     | .drop => runActs as start e []
-    | .rev => runActs as start e ts.reverse
-    | .dup => runActs as start e (ts ++ ts)
+    | .rev => runActs as start e (stripTopL ts).reverse
+    | .dup => runActs as start e (stripTopL ts ++ stripTopL ts)
+    | .name n m al => runActs as start e [.nm n m al ts]
     | .app v => runActs as start e (ts ++ [.s v])
     | .failP => .fail .parse start
     | .failF => .fail .fatal start
@@ -567,6 +591,19 @@ def enhanceImpl (p : P) (acts : Bool) (e : Option Nat) (loc : Nat) : Out :=
     | .fail .syntax l => .fail .syntax l
     | .fail c l => .fail c (if l == 0 then loc else l)
     | o => o
+
+/-- what a non-matching `Opt` returns (5394-5402): nothing, or the default value — bound to the results name of the
+    optional *expression* when that has one (`tokens[self_expr.resultsName] = default_value`: one plain entry, the
+    name's list-all flag is not consulted) -/
+def optDefault (g : Grammar) (e : Nat) (dflt : Option (List Char)) : List Tok :=
+  match dflt with
+  | none => []
+  | some v =>
+    match g[e]? with
+    | some n => (match n.acts with
+      | .name nm _ _ :: _ => [.nm nm true false [.s v]]
+      | _ => [.s v])
+    | none => [.s v]
 
 /-- `parseImpl` dispatch -/
 def parseImpl (g : Grammar) (p : P) (nd : Node) (s : List Char) (loc : Nat) (acts : Bool) : Out :=
@@ -603,12 +640,8 @@ def parseImpl (g : Grammar) (p : P) (nd : Node) (s : List Char) (loc : Nat) (act
   | .opt e dflt =>
       -- Opt.parseImpl (5368-5384)
       (match p e loc acts false with
-       | .fail .parse _ => .ok loc (match dflt with
-          | some v => [.s v]
-          | none => [])
-       | .idx => .ok loc (match dflt with
-          | some v => [.s v]
-          | none => [])
+       | .fail .parse _ => .ok loc (optDefault g e dflt)
+       | .idx => .ok loc (optDefault g e dflt)
        | o => o)
   | .many e ne one =>
       if one then manyImpl p nd acts s.length e ne loc
